@@ -499,3 +499,7 @@ WITNESSES += [
             rule="C13.G4", construct="resize", note="generic: an option dropped from one forwarding call"),
     Witness("C13.T5", "menpo/image/base.py", "Image.resize", "order=order, warp_landmarks=warp_landmarks", "warp_landmarks=warp_landmarks, order=int(order)", kind="T"),
 ]
+
+WITNESSES += [
+    Witness("C13.W13", "menpo/image/boolean.py", "BooleanImage.bounds_true", "if constrain_to_bounds:", "if not constrain_to_bounds:", rule="C13.G8", construct="bounds_true", note="seeded change R5-C13-A (generic: option polarity)"),
+]
